@@ -100,6 +100,10 @@ func (v *varValidator) validateVarType(typ *ast.Type, val reflect.Value) (reflec
 	}
 	defer resetPath()
 	if typ.Elem != nil {
+		if !val.IsValid() {
+			// null for a nullable list (non-null positions are checked by the caller)
+			return val, nil
+		}
 		if val.Kind() != reflect.Slice {
 			// GraphQL spec says that non-null values should be coerced to an array when possible.
 			// Hence if the value is not a slice, we create a slice and add val to it.
